@@ -200,6 +200,16 @@ def main():
     if violations:
         rc = 1
         for f in violations:
+            if f.get("engine") == "kani" and f.get("harness"):
+                # Kani gives a counterexample: replay it as a unit test against the real function
+                pb = kani_run.playback(REPO, f["harness"])
+                extra = "\n--- Kani concrete playback (unit test holding the counterexample) ---\n%s\n--- cargo kani playback on the real code ---\n%s\nreproduced: %s\nreplay-cmd: python3 kani_run.py --only %s\n" % (
+                    pb["test"], pb["output"], pb["reproduced"], f["harness"]["name"])
+                f2 = dict(f)
+                f2.pop("harness", None)
+                path = write_replay(prop, f2, res, extra)
+                print("VIOLATION property=%s replay=%s%s" % (prop, path, "" if pb["reproduced"] else " no-failing-input-found"))
+                continue
             if f.get("replay"):
                 print("VIOLATION property=%s replay=%s" % (prop, f["replay"]))
             else:
